@@ -34,6 +34,17 @@ func RoundedCone(a, b vector3.Float64, r1, r2 float64) sample.Vec3ToFloat {
 	rrr := rr * rr
 	signRRR := sign(rr) * rrr
 	a2 := l2 - rrr
+
+	// One end sphere contains (or internally touches) the other, which includes
+	// a == b: the shape is just the larger sphere. The cone formula below needs
+	// a2 > 0 (it divides by l2 and takes the square root of a2).
+	if a2 <= 0 {
+		if r1 >= r2 {
+			return Sphere(a, r1)
+		}
+		return Sphere(b, r2)
+	}
+
 	il2 := 1.0 / l2
 
 	return func(v vector3.Float64) float64 {
